@@ -56,10 +56,21 @@ structure Reader where
   exts : List (String × String)
   deriving Repr
 
+/-- the 48 header bytes are read from the device directly, without the page layer; reading them once more THROUGH
+    the page layer checks the checksum of the page that holds them (`none` = that page is damaged) -/
+def checkHeaderPage (r : PR) : Option PR :=
+  match r.seekPhysical 0 with
+  | .ok (r1, _) =>
+    match r1.readExact 48 with
+    | (r2, some _) => some r2
+    | (_, none) => none
+  | _ => none
+
 /-- `E57Reader::new` -/
 def Reader.open (file : Bytes) (xo : XmlOracle) (fp : FloatParse) : Option Reader := do
   let header ← FileHeader.read file
   let pr ← (PR.new ⟨file, 48⟩ header.pageSize).toOption
+  let pr ← checkHeaderPage pr
   let (pr, xml) ← extractXml pr header.xmlOffset header.xmlLength
   let doc ← xo xml
   let root ← rootFromDocument fp doc
@@ -73,6 +84,7 @@ def rawXml (file : Bytes) : Option Bytes := do
   let off ← devGetU64 ⟨file, 0⟩ 24
   let len ← devGetU64 ⟨file, 0⟩ 32
   let pr ← (PR.new ⟨file, 0⟩ ps).toOption
+  let pr ← checkHeaderPage pr
   (extractXml pr off len).map (·.2)
 
 /-! ### compressed vector section and packets -/
